@@ -65,7 +65,17 @@ def gen_plan(rng, index, tier):
             # inner one only (value kinds: scalar, array, dict) and must survive both exits
             lvl, idx, prm = rng.choice(["core", "assembly", "block", "component"]), rng.randrange(1000), rng.choice(["vP0", "vP1", "vP2"])
             ent = {"op": "enter", "level": lvl, "idx": idx, "keep": sorted({prm} | set(rng.sample(KEEP_CANDIDATES, rng.choice([0, 1]))))}
-            steps += [dict(ent), dict(ent), {"op": "setp", "level": lvl, "idx": idx, "param": prm, "vkind": rng.choice(["arr", "arr", "arrn", "float", "dict"]), "u": uid}, {"op": "exit"}, {"op": "exit"}]
+            steps += [dict(ent), dict(ent), {"op": "setp", "level": lvl, "idx": idx, "param": prm, "vkind": rng.choice(["arr", "arr", "arrn", "float", "dict", "arrnudge", "arrtrace"]), "u": uid}, {"op": "exit"}, {"op": "exit"}]
+        elif r >= 0.215 and r < 0.235 and depth < 3:
+            # a kept array that moves by a hair inside the scope (or holds trace values): kept is kept
+            lvl, idx, prm = rng.choice(["core", "assembly", "block", "component"]), rng.randrange(1000), rng.choice(["vP0", "vP1", "vP2"])
+            first = rng.choice(["arr", "arrn", "arrtrace"])
+            steps += [
+                {"op": "setp", "level": lvl, "idx": idx, "param": prm, "vkind": first, "u": uid},
+                {"op": "enter", "level": lvl, "idx": idx, "keep": sorted({prm} | set(rng.sample(KEEP_CANDIDATES, rng.choice([0, 1]))))},
+                {"op": "setp", "level": lvl, "idx": idx, "param": prm, "vkind": "arrnudge" if first != "arrtrace" else "arrtrace", "u": uid + 1},
+                {"op": "exit"},
+            ]
         elif r < 0.215 and r >= 0.205:
             # a linked dimension gets a number of its own (the link is gone until the scope ends)
             steps.append({"op": "unlink", "idx": rng.randrange(1000), "factor": rng.choice([0.995, 1.0])})
@@ -79,7 +89,7 @@ def gen_plan(rng, index, tier):
             steps.append({"op": rng.choice(["exit", "exit", "exit_exc"])})
             depth -= 1
         elif r < 0.55:
-            steps.append({"op": "setp", "level": rng.choice(["reactor", "core", "assembly", "block", "component"]), "idx": rng.randrange(1000), "param": rng.choice(SET_PARAMS), "vkind": rng.choice(["float", "int", "arr", "dict", "none", "str", "list", "arrn"]), "u": uid})
+            steps.append({"op": "setp", "level": rng.choice(["reactor", "core", "assembly", "block", "component"]), "idx": rng.randrange(1000), "param": rng.choice(SET_PARAMS), "vkind": rng.choice(["float", "int", "arr", "dict", "none", "str", "list", "arrn", "arrnudge", "arrnudge", "arrtrace"]), "u": uid})
         elif r < 0.62:
             steps.append({"op": "std", "idx": rng.randrange(1000), "which": rng.choice(["power", "flux", "mgFlux", "keff"]), "u": uid})
         elif r < 0.70:
@@ -153,7 +163,7 @@ def _val(v):
     return kernel.canon(v)
 
 
-def obj_state(o):
+def obj_state(o, keys=False):
     from armi.reactor import parameters
     from armi.reactor.components import Component
 
@@ -166,6 +176,10 @@ def obj_state(o):
         except Exception as e:  # noqa: BLE001
             v = f"<{type(e).__name__}>"
         st["p." + pd.name] = _val(v)
+    # which parameters the object lists as assigned (what copies, summaries and the database go by)
+    # (a mark kept per definition, i.e. per class: only compared around scopes)
+    if keys:
+        st["keys"] = sorted(str(k) for k in o.p.keys())
     if isinstance(o, Component):
         st["ndens"] = {k: float(v) for k, v in o.getNumberDensities().items()}
         st["T"] = float(o.temperatureInC)
@@ -184,8 +198,8 @@ def subtree(o):
     return [o] + list(o.iterChildren(deep=True))
 
 
-def snapshot(o):
-    return {int(x.p.serialNum): obj_state(x) for x in subtree(o)}
+def snapshot(o, keys=False):
+    return {int(x.p.serialNum): obj_state(x, keys) for x in subtree(o)}
 
 
 def diff_states(want, got):
@@ -321,6 +335,19 @@ class Runner:
         if op == "setp":
             o = self.pick(st["level"], st["idx"])
             v = self.value(st["vkind"], st["u"])
+            if st["vkind"] == "arrnudge":
+                # an array that moves by a hair (a converging iteration, a scaling and its inverse)
+                import numpy as np
+
+                try:
+                    cur = o.p[st["param"]]
+                except Exception:  # noqa: BLE001
+                    cur = None
+                v = cur * (1.0 + 3.0e-7) if isinstance(cur, np.ndarray) and cur.dtype.kind == "f" and cur.size and np.all(np.isfinite(cur)) else np.array([1.0, 2.0, 3.0])
+            elif st["vkind"] == "arrtrace":
+                import numpy as np
+
+                v = np.array([1.0e-10 * (1 + st["u"] % 7), 2.0e-11, 0.0])
             if self.readonly:
                 before = obj_state(o)
                 refused = False
@@ -643,7 +670,7 @@ class Runner:
                 vols = None
                 self.probe("scope_entered_with_a_pending_recomputation")
         # the state at entry (reading parameters fills no cache)
-        want = snapshot(o)
+        want = snapshot(o, keys=True)
         edits0 = self.edits
         self.sig.append(("enter", depth, type(o).__name__, len(names)))
         how = "end"
@@ -659,12 +686,12 @@ class Runner:
                 keep_arg = keep
             with o.retainState(keep_arg):
                 nxt, how = self.run(i + 1, depth + 1)
-                inner = snapshot(o)
+                inner = snapshot(o, keys=True)
                 if how == "exit_exc":
                     raise Interrupt()
         except Interrupt:
             self.probe("scope_cancelled_depth_%d" % min(depth + 1, 3))
-        got = snapshot(o)
+        got = snapshot(o, keys=True)
         # expectation: the saved state, except that kept parameters hold their inner values
         exp = want
         if names and inner is not None:
@@ -679,6 +706,16 @@ class Runner:
                     elif (k == "T" and "temperatureInC" in names and kept(sn, "temperatureInC")) or (k == "ndens" and "numberDensities" in names and kept(sn, "numberDensities")):
                         e[k] = inner[sn].get(k)
                 exp[sn] = e
+        # the listing of assigned parameters is kept per definition (per class) and follows rules of its
+        # own; what the statement needs from it: a kept parameter that holds a new value is listed
+        unlisted = None
+        for sn, stt in got.items():
+            for nm in names:
+                if sn in want and kept(sn, nm) and stt.get("p." + nm) != want[sn].get("p." + nm) and stt.get("p." + nm) not in (None, "<unset>") and nm not in stt.get("keys", []):
+                    unlisted = (sn, nm)
+        for dct in (exp, got):
+            for stt in dct.values():
+                stt.pop("keys", None)
         diffs = list(diff_states(exp, got))
         self.scopes_checked += 1
         self.sig.append((how, depth))
@@ -686,6 +723,8 @@ class Runner:
             self.probe("scope_left_after_edits")
         if names:
             self.probe("scope_with_keep_set")
+        if unlisted is not None and not diffs:
+            self.fail("C16.restore", f"scope on {type(o).__name__} (keep={sorted(names)}, depth {depth + 1}, left by {how}): object serial {unlisted[0]} keeps its new value of {unlisted[1]}, but no longer lists that parameter among its assigned ones (keys / items / what is written to a database)", field="kept-unlisted", nested=depth > 0, how="exception" if how == "exit_exc" else "normal")
         for sn, field, a, b in diffs:
             kind = "grid" if field == "grid" else ("kept" if field[2:] in names else "param" if field.startswith("p.") else field)
             self.fail(
